@@ -17,8 +17,8 @@ Notation sview := (sview s sid).
 Notation rview := (rview s sid).
 Notation quiet := (quiet s sid).
 Notation keep := (keep sid).
-Notation vstep := (vstep s sid).
-Notation vsteps := (vsteps s sid).
+Notation vstep := (vstep s sid false).
+Notation vsteps := (vsteps s sid false).
 Notation ev_frames := (ev_frames s sid).
 
 Definition arrivals (l : list act) : list wframe :=
@@ -446,6 +446,11 @@ Qed.
 (* ---- recvDataFromRemote on a decoded frame ---- *)
 
 (* the "deliver" continuation of recv_frame, from a state in which the object exists or not *)
+(* why a frame handed to recvDataFromRemote did not reach the re-sequencer *)
+Definition discarded (y : sys) (x : side) (fr : wframe) : Prop :=
+  w_cl fr = 2 \/ se_closed (sess y x) = true \/ lookup (w_sid fr) (se_tab (sess y x)) = Some false \/
+  (lookup (w_sid fr) (se_tab (sess y x)) = Some true /\ lookup (w_sid fr) (se_objs (sess y x)) = None).
+
 Lemma recv_deliver_effect y0 x fr ch r :
   WF y0 ->
   match lookup (w_sid fr) (se_objs (sess y0 x)) with
@@ -457,27 +462,30 @@ Lemma recv_deliver_effect y0 x fr ch r :
       else (y1, ch, [])
   end = r ->
   exists acts, vsteps y0 acts (fst (fst r)) /\ emitted acts = [] /\ readout acts = [] /\ ev_frames (snd r) = [] /\
-    (arrivals acts = [] \/ (x = o /\ w_sid fr = sid /\ arrivals acts = [fr])).
+    ((arrivals acts = [] /\ (x = o -> w_sid fr = sid -> lookup (w_sid fr) (se_objs (sess y0 x)) = None))
+     \/ (x = o /\ w_sid fr = sid /\ arrivals acts = [fr])).
 Proof.
   intros Hwf0 Hr.
   destruct (lookup (w_sid fr) (se_objs (sess y0 x))) as [st|] eqn:El.
-  2:{ subst r. exists []. cbn [fst snd]. split; [constructor|]. split; [reflexivity|]. split; [reflexivity|]. split; [reflexivity|left; reflexivity]. }
+  2:{ subst r. exists []. cbn [fst snd]. split; [constructor|]. split; [reflexivity|]. split; [reflexivity|]. split; [reflexivity|left; split; reflexivity]. }
   pose proof (rb_write_pclosed (st_rb st) (mkF (w_seq fr) (negb (w_cl fr =? 0)) (w_pay fr))) as Hpc.
   destruct (rb_write (st_rb st) _) as [[rb' tbc] er] eqn:Erw. cbn [fst] in Hpc. cbv zeta in Hr.
   set (y1 := set_sess y0 x _) in Hr.
   (* first step: y0 -> y1 *)
   assert (H1 : exists a1, vsteps y0 a1 y1 /\ emitted a1 = [] /\ readout a1 = [] /\
-                 (arrivals a1 = [] \/ (x = o /\ w_sid fr = sid /\ arrivals a1 = [fr]))).
+                 ((arrivals a1 = [] /\ (x = o -> w_sid fr = sid -> @None stream = None -> False))
+                  \/ (x = o /\ w_sid fr = sid /\ arrivals a1 = [fr]))).
   { destruct (side_eqb x o && (w_sid fr =? sid)) eqn:Eo.
     - apply andb_prop in Eo as [E1 E2]. apply side_eqb_eq in E1. subst x. assert (Hsid : w_sid fr = sid) by lia.
       exists [AArrive fr]. split; [|split; [reflexivity|split; [reflexivity|right; auto]]].
-      apply vsteps_one. eapply (VArrive _ _ y0 y1 fr (st_rb st) (st_closed st)).
+      apply vsteps_one. eapply (VArrive _ _ _ y0 y1 fr (st_rb st) (st_closed st)).
       + rewrite rview_def. rewrite <- Hsid, El. reflexivity.
       + unfold y1. rewrite rview_set_sess, side_eqb_refl. cbn [se_objs upd_objs]. rewrite <- Hsid, lookup_update_eq.
         cbn. unfold rv, to_frame. cbn. rewrite Erw. reflexivity.
       + unfold y1. apply inflight_set_sess.
       + unfold y1. rewrite sview_set_sess. assert (E : side_eqb o s = false) by (unfold o; apply side_eqb_other'). now rewrite E.
-    - exists [AQuiet]. split; [|split; [reflexivity|split; [reflexivity|left; reflexivity]]].
+    - exists [AQuiet]. split; [|split; [reflexivity|split; [reflexivity|left; split; [reflexivity|]]]].
+      2:{ intros -> Hs _. rewrite side_eqb_refl, Hs, N.eqb_refl in Eo. discriminate. }
       apply vsteps_quiet. unfold y1. split; [rewrite inflight_set_sess; reflexivity|]. split; left.
       + rewrite sview_set_sess. destruct (side_eqb x s) eqn:E; [|reflexivity].
         apply side_eqb_eq in E. subst x. cbn [se_objs upd_objs]. rewrite lookup_update.
@@ -493,29 +501,36 @@ Proof.
     destruct (close_stream_quiet _ _ _ _ _ _ _ _ _ Ecs Hne) as [Hq2 Hf2].
     exists (a1 ++ [AQuiet]). split; [eapply vsteps_app; [exact Hv1|apply vsteps_quiet; exact Hq2]|].
     rewrite emitted_app, readout_app, arrivals_app, He1, Hr1. cbn. rewrite !app_nil_r.
-    split; [reflexivity|split; [reflexivity|split; [exact Hf2|exact Ha1]]].
-  - subst r. cbn [fst snd]. exists a1. split; [exact Hv1|]. split; [exact He1|split; [exact Hr1|split; [reflexivity|exact Ha1]]].
+    split; [reflexivity|split; [reflexivity|split; [exact Hf2|]]].
+    destruct Ha1 as [[Ha1 Hx]|Ha1]; [left; split; [exact Ha1|intros A B; exfalso; exact (Hx A B eq_refl)]|right; exact Ha1].
+  - subst r. cbn [fst snd]. exists a1. split; [exact Hv1|]. split; [exact He1|split; [exact Hr1|split; [reflexivity|]]].
+    destruct Ha1 as [[Ha1 Hx]|Ha1]; [left; split; [exact Ha1|intros A B; exfalso; exact (Hx A B eq_refl)]|right; exact Ha1].
 Qed.
 
 Lemma recv_frame_effect y x fr ch y' ch' evs :
   recv_frame y x fr ch = (y', ch', evs) -> WF y ->
   exists acts, vsteps y acts y' /\ emitted acts = [] /\ readout acts = [] /\ ev_frames evs = [] /\
-    (arrivals acts = [] \/ (x = o /\ keep fr = true /\ arrivals acts = [fr])).
+    ((arrivals acts = [] /\ (x = o -> keep fr = true -> discarded y x fr))
+     \/ (x = o /\ keep fr = true /\ arrivals acts = [fr])).
 Proof.
   unfold recv_frame. intros H Hwf.
   destruct (w_cl fr =? 2) eqn:Ecl2.
   { destruct (passive_close y x) as [y1 e1] eqn:Epc. injection H as <- <- <-.
     destruct (passive_close_quiet _ _ _ _ Epc) as [Hq Hf].
-    exists [AQuiet]. split; [apply vsteps_quiet; exact Hq|]. split; [reflexivity|split; [reflexivity|split; [exact Hf|left; reflexivity]]]. }
+    exists [AQuiet]. split; [apply vsteps_quiet; exact Hq|]. split; [reflexivity|split; [reflexivity|split; [exact Hf|left; split; [reflexivity|]]]].
+    intros _ _. left. lia. }
   destruct (se_closed (sess y x)) eqn:Ecl.
-  { injection H as <- <- <-. exists []. split; [constructor|]. split; [reflexivity|split; [reflexivity|split; [reflexivity|left; reflexivity]]]. }
+  { injection H as <- <- <-. exists []. split; [constructor|]. split; [reflexivity|split; [reflexivity|split; [reflexivity|left; split; [reflexivity|]]]].
+    intros _ _. right. left. exact Ecl. }
   assert (Hkeep : forall a, (x = o /\ w_sid fr = sid /\ arrivals a = [fr]) -> (x = o /\ keep fr = true /\ arrivals a = [fr])).
   { intros a (H1 & H2 & H3). split; [exact H1|split; [|exact H3]]. unfold MuxView.keep. rewrite H2, N.eqb_refl, Ecl2. reflexivity. }
   destruct (lookup (w_sid fr) (se_tab (sess y x))) as [[|]|] eqn:Et.
   - destruct (recv_deliver_effect y x fr ch _ Hwf H) as (acts & Hv & He & Hr & Hf & Ha). cbn [fst snd] in *.
     exists acts. split; [exact Hv|split; [exact He|split; [exact Hr|split; [exact Hf|]]]].
-    destruct Ha as [Ha|Ha]; [left; exact Ha|right; apply Hkeep; exact Ha].
-  - injection H as <- <- <-. exists []. split; [constructor|]. split; [reflexivity|split; [reflexivity|split; [reflexivity|left; reflexivity]]].
+    destruct Ha as [[Ha Hx]|Ha]; [left; split; [exact Ha|]|right; apply Hkeep; exact Ha].
+    intros Hxo Hk. right. right. right. split; [exact Et|]. apply Hx; [exact Hxo|]. unfold MuxView.keep in Hk. apply andb_prop in Hk as [Hk _]. lia.
+  - injection H as <- <- <-. exists []. split; [constructor|]. split; [reflexivity|split; [reflexivity|split; [reflexivity|left; split; [reflexivity|]]]].
+    intros _ _. right. right. left. exact Et.
   - set (se' := upd_count _ _) in H. set (y0 := set_sess y x se') in H.
     assert (Hwf0 : WF y0).
     { unfold y0. apply WF_set_sess; [exact Hwf| | |].
@@ -555,7 +570,10 @@ Proof.
     exists (a0 ++ acts). split; [eapply vsteps_app; eauto|].
     rewrite emitted_app, readout_app, arrivals_app, He0, Hr0, Ha0, He, Hr. cbn [app].
     split; [reflexivity|split; [reflexivity|split; [exact Hf|]]].
-    destruct Ha as [Ha|Ha]; [left; exact Ha|right; apply Hkeep; exact Ha].
+    destruct Ha as [[Ha Hx]|Ha]; [left; split; [exact Ha|]|right; apply Hkeep; exact Ha].
+    (* a stream that has just been created is there *)
+    intros Hxo Hk. exfalso. assert (Hs : w_sid fr = sid) by (unfold MuxView.keep in Hk; apply andb_prop in Hk as [Hk _]; lia).
+    specialize (Hx Hxo Hs). unfold y0 in Hx. rewrite sess_set_same, Hobj, lookup_update_eq in Hx. discriminate.
 Qed.
 
 Lemma deplex_error_quiet y x c y' evs : deplex_error y x c = (y', evs) -> quiet y y' /\ ev_frames evs = [].
@@ -699,7 +717,7 @@ Proof.
   destruct (side_eqb x o && (sid' =? sid)) eqn:Es.
   - apply andb_prop in Es as [E1 E2]. apply side_eqb_eq in E1. subst x. assert (sid' = sid) by lia. subst sid'.
     exists [ARead (S k) dd]. split; [|split; [reflexivity|split; [reflexivity|cbn; now rewrite app_nil_r]]].
-    apply vsteps_one. eapply (VRead _ _ _ _ (st_rb st) (st_closed st) (S k) dd rb').
+    apply vsteps_one. eapply (VRead _ _ _ _ _ (st_rb st) (st_closed st) (S k) dd rb').
     + rewrite rview_def, El. reflexivity.
     + exact Er.
     + rewrite rview_set_sess, side_eqb_refl. cbn [se_objs upd_objs]. rewrite lookup_update_eq. reflexivity.
@@ -817,6 +835,10 @@ Definition core_reads (l : label) (evs : list ev) : list N :=
   match l with LRead x sid' _ => if side_eqb x o && (sid' =? sid) then ret_data evs else [] | _ => [] end.
 
 (* one label: the frame (if any) taken off the wire for the receiver of this direction, then actions *)
+
+(* only a connection reset lets frames leave the wire unprocessed *)
+Definition droppy (l : label) : bool := match l with LFail _ | LBreak _ => true | _ => false end.
+
 Lemma step_core_effect y l ch y' evs :
   step_core y l ch = (y', evs) -> WF y ->
   (forall x, l = LOpen x -> lookup (se_nextsid (sess y x)) (se_objs (sess y x)) = None) ->
@@ -825,27 +847,29 @@ Lemma step_core_effect y l ch y' evs :
     ((pend = None /\ y1 = y) \/
      (exists fr, pend = Some fr /\ keep fr = true /\ Permutation (inflight y) (fr :: inflight y1) /\
                  sview y1 = sview y /\ rview y1 = rview y)) /\
-    vsteps y1 acts y' /\ emitted acts = ev_frames evs /\ readout acts = core_reads l evs /\
+    MuxView.vsteps s sid (droppy l) y1 acts y' /\ emitted acts = ev_frames evs /\ readout acts = core_reads l evs /\
     ev_pend_reads evs = [] /\
-    (arrivals acts = [] \/ (exists fr, pend = Some fr /\ arrivals acts = [fr])).
+    ((arrivals acts = [] /\ (forall fr, pend = Some fr -> discarded y o fr))
+     \/ (exists fr, pend = Some fr /\ arrivals acts = [fr])).
 Proof.
   intros H Hwf Hfresh Hw2.
   (* the common shape "no frame taken off for us, these actions" *)
-  assert (Hsimple : forall acts evs0 r, vsteps y acts y' -> emitted acts = ev_frames evs0 -> wire_only evs0 ->
+  assert (Hsimple : forall acts evs0 r, MuxView.vsteps s sid (droppy l) y acts y' -> emitted acts = ev_frames evs0 -> wire_only evs0 ->
             evs = evs0 ++ [r] -> (forall c n d, r = ERet c n d -> d = []) -> (exists c n d, r = ERet c n d) ->
             readout acts = [] -> arrivals acts = [] ->
             exists y1 pend acts,
               ((pend = None /\ y1 = y) \/
                (exists fr, pend = Some fr /\ keep fr = true /\ Permutation (inflight y) (fr :: inflight y1) /\
                  sview y1 = sview y /\ rview y1 = rview y)) /\
-              vsteps y1 acts y' /\ emitted acts = ev_frames evs /\ readout acts = core_reads l evs /\
+              MuxView.vsteps s sid (droppy l) y1 acts y' /\ emitted acts = ev_frames evs /\ readout acts = core_reads l evs /\
               ev_pend_reads evs = [] /\
-              (arrivals acts = [] \/ (exists fr, pend = Some fr /\ arrivals acts = [fr]))).
+              ((arrivals acts = [] /\ (forall fr, pend = Some fr -> discarded y o fr))
+               \/ (exists fr, pend = Some fr /\ arrivals acts = [fr]))).
   { intros acts evs0 r Hv He Hwire -> Hd (c0 & n0 & d0 & ->) Hr Ha.
     destruct (wire_no_reads _ Hwire) as [Hp Hrd]. specialize (Hd _ _ _ eq_refl). subst d0.
     exists y, None, acts. split; [left; auto|]. split; [exact Hv|].
     split; [rewrite ev_frames_app, He; cbn; now rewrite app_nil_r|].
-    split; [|split; [rewrite ev_pend_reads_app, Hp; reflexivity|left; exact Ha]].
+    split; [|split; [rewrite ev_pend_reads_app, Hp; reflexivity|left; split; [exact Ha|intros ? Hx; discriminate Hx]]].
     rewrite Hr. unfold core_reads. destruct l; try reflexivity.
     destruct (_ && _); [|reflexivity]. rewrite ret_data_app, Hrd. reflexivity. }
   (* uses of Hsimple: remaining goals are  vsteps / emitted / wire_only / readout / arrivals  in this order *)
@@ -879,10 +903,10 @@ Proof.
     destruct (try_read y x sid' k) as [[[y1 rc] dd]|] eqn:Et.
     + injection H as <- <-. destruct (try_read_effect _ _ _ _ _ _ _ Et) as (acts & Hv & He & Ha & Hr).
       exists y, None, acts. split; [left; auto|]. split; [exact Hv|]. split; [exact He|].
-      split; [|split; [reflexivity|left; exact Ha]].
+      split; [|split; [reflexivity|left; split; [exact Ha|intros ? Hx; discriminate Hx]]].
       rewrite Hr. unfold core_reads. destruct (_ && _); [|reflexivity]. cbn. now rewrite app_nil_r.
     + injection H as <- <-. exists y, None, [AQuiet]. split; [left; auto|].
-      split; [apply vsteps_quiet; apply quiet_set_pend|]. split; [reflexivity|]. split; [|split; [reflexivity|left; reflexivity]].
+      split; [apply vsteps_quiet; apply quiet_set_pend|]. split; [reflexivity|]. split; [|split; [reflexivity|left; split; [reflexivity|intros ? Hx; discriminate Hx]]].
       unfold core_reads. destruct (_ && _); reflexivity.
   - (* Accept *)
     rewrite step_core_accept in H.
@@ -956,7 +980,9 @@ Proof.
           split; [apply sview_set_conns|apply rview_set_conns]. }
         split; [exact Hv|]. split; [rewrite ev_frames_app, He, Hf; reflexivity|].
         split; [rewrite Hr; reflexivity|]. split; [rewrite ev_pend_reads_app, Hp; reflexivity|].
-        destruct Ha as [Ha|(_ & _ & Ha)]; [left; exact Ha|right; exists fr; auto].
+        destruct Ha as [[Ha Hx]|(_ & _ & Ha)]; [left; split; [exact Ha|]|right; exists fr; auto].
+        intros f0 Hf0. injection Hf0 as <-. specialize (Hx eq_refl E2).
+        unfold discarded in *. unfold y1 in Hx. rewrite !sess_set_conns in Hx. exact Hx.
       * cbn [app] in Hdq.
         exists y, None, (AQuiet :: acts). split; [left; auto|].
         split.
@@ -964,7 +990,8 @@ Proof.
           split; left; [apply sview_set_conns|apply rview_set_conns]. }
         split; [change (emitted (AQuiet :: acts)) with (emitted acts); rewrite ev_frames_app, He, Hf; reflexivity|].
         split; [change (readout (AQuiet :: acts)) with (readout acts); rewrite Hr; reflexivity|]. split; [rewrite ev_pend_reads_app, Hp; reflexivity|].
-        left. change (arrivals (AQuiet :: acts)) with (arrivals acts). destruct Ha as [Ha|(Hx & Hk & _)]; [exact Ha|].
+        left. change (arrivals (AQuiet :: acts)) with (arrivals acts). split; [|intros ? Hx; discriminate Hx].
+        destruct Ha as [[Ha _]|(Hx & Hk & _)]; [exact Ha|].
         subst x. rewrite side_eqb_refl, Hk in Ek. discriminate.
   - (* Fail *)
     rewrite step_core_fail in H.
@@ -973,8 +1000,8 @@ Proof.
         eapply (Hsimple [] [] _); [constructor|reflexivity|constructor|reflexivity|intros ? ? ? Hd; now injection Hd|do 3 eexists; reflexivity|reflexivity|reflexivity]. }
     cbv zeta in H.
     set (y0 := set_conns y (setN (N.to_nat c) (mkC [] [] (c_clA cn) (c_clB cn) true) (sy_conns y))) in *.
-    assert (Hdrop : vstep y (ADrop (filter keep (conn_q cn o))) y0).
-    { apply VDrop; [|apply sview_set_conns|apply rview_set_conns].
+    assert (Hdrop : MuxView.vstep s sid true y (ADrop (filter keep (conn_q cn o))) y0).
+    { apply VDrop; [reflexivity| |apply sview_set_conns|apply rview_set_conns].
       unfold MuxView.inflight, y0. fold o. cbn [sy_conns set_conns].
       apply (flat_map_setN_nil (fun c0 : conn => filter keep (conn_q c0 o)) _ _ _ _ En). destruct o; reflexivity. }
     destruct (if conn_closed_end cn SA || c_failed cn then (y0, []) else deplex_error y0 SA c) as [ya ea] eqn:Ea.
@@ -1015,9 +1042,9 @@ Proof.
     2:{ injection H as <- <-.
         eapply (Hsimple [] [] _); [constructor|reflexivity|constructor|reflexivity|intros ? ? ? Hd; now injection Hd|do 3 eexists; reflexivity|reflexivity|reflexivity]. }
     injection H as <- <-.
-    assert (Hdrop : vstep y (ADrop (filter keep (conn_q cn o)))
+    assert (Hdrop : MuxView.vstep s sid true y (ADrop (filter keep (conn_q cn o)))
                           (set_conns y (setN (N.to_nat c) (mkC [] [] (c_clA cn) (c_clB cn) true) (sy_conns y)))).
-    { apply VDrop; [|apply sview_set_conns|apply rview_set_conns].
+    { apply VDrop; [reflexivity| |apply sview_set_conns|apply rview_set_conns].
       unfold MuxView.inflight. fold o. cbn [sy_conns set_conns].
       apply (flat_map_setN_nil (fun c0 : conn => filter keep (conn_q c0 o)) _ _ _ _ En). destruct o; reflexivity. }
     eapply (Hsimple [ADrop (filter keep (conn_q cn o))] [] _);
